@@ -747,6 +747,11 @@ func (s *Sim) callAccessDropped(c *Client, r *CReq) bool {
 			calls++
 		}
 	}
+	if len("access."+name)+inboxLen > maxControlLine {
+		// the access request does not fit a control line: it fails at once,
+		// which is an answer like any other
+		accessAnswered = true
+	}
 	// client requests for the same method on the same rid sent at or after r
 	same := 0
 	for _, o := range c.ReqL {
@@ -757,6 +762,9 @@ func (s *Sim) callAccessDropped(c *Client, r *CReq) bool {
 		if o.RID == r.RID && (o.Action == "call" || o.Action == "new") && om == m {
 			same++
 		}
+	}
+	if os.Getenv("SIM_DEBUG_IV") != "" {
+		fmt.Fprintf(dbgOut(), "callAccessDropped %d %s m=%s answered=%v calls=%d same=%d namelen=%d\n", r.ID, r.Action, m, accessAnswered, calls, same, len(name))
 	}
 	return accessAnswered && calls < same
 }
